@@ -1,0 +1,1065 @@
+//! C16 adapter: the real `Kademlia` event loop behind the line protocol.
+//!
+//! The coordinator runs on a real `TransportService` whose other side (transport manager,
+//! connections, remote peers) is played by the operations. Time is the paused tokio clock, advanced
+//! only by `advance`; substreams are in-memory yamux streams whose remote end answers with messages
+//! built by the real encoders, stays silent, or closes.
+//!
+//! Observation of one operation: `<trace> # <state>` where `<trace>` lists, in execution order, the
+//! query actions handled (`act:`) and executor results consumed (`res:`), then the externally
+//! visible effects (`dial:`, `open:`, `rx:`, `ev:`), and `<state>` is the coordinator's bookkeeping
+//! at quiescence.
+
+use super::{
+    executor::QueryResult,
+    handle::{KademliaEvent, KademliaHandle, Quorum},
+    message::KademliaMessage,
+    query::{verif_c16::Live, QueryAction},
+    record::{ContentProvider, Key as RecordKey, Record},
+    types::{ConnectionType, KademliaPeer},
+    ConfigBuilder, Kademlia, PeerAction, QueryId,
+};
+use crate::{
+    addresses::PublicAddresses,
+    codec::ProtocolCodec,
+    error::SubstreamError,
+    protocol::{
+        connection::ConnectionHandle, Direction, InnerTransportEvent, Permit, ProtocolCommand,
+        SubstreamKeepAlive, TransportService,
+    },
+    substream::Substream,
+    transport::{
+        manager::{
+            handle::InnerTransportManagerCommand,
+            verif_c16::{self as mgr, Peers, View},
+            SupportedTransport, TransportManagerHandle,
+        },
+        Endpoint, KEEP_ALIVE_TIMEOUT,
+    },
+    types::{protocol::ProtocolName, ConnectionId, SubstreamId},
+    verif::{peer, peer_index, VerifBox},
+    BandwidthSink, PeerId,
+};
+
+use bytes::BytesMut;
+use futures::{AsyncReadExt, AsyncWriteExt, FutureExt, StreamExt};
+use multiaddr::Multiaddr;
+use tokio::sync::mpsc::{channel, unbounded_channel, Receiver, Sender, UnboundedReceiver, UnboundedSender};
+use tokio_util::compat::{FuturesAsyncReadCompatExt, TokioAsyncReadCompatExt};
+
+use std::{
+    cell::RefCell,
+    collections::{BTreeMap, HashMap, HashSet},
+    num::NonZeroUsize,
+    time::Duration,
+};
+
+/// Number of scheduler rounds after which the box is considered quiescent.
+const ROUNDS: usize = 40;
+/// Highest remote peer index.
+const MAX_PEER: u64 = 8;
+
+#[derive(Default)]
+struct Snap {
+    dials: Vec<(PeerId, Vec<(char, usize)>)>,
+    peers: Vec<(PeerId, Vec<(SubstreamId, char, usize)>)>,
+    subs: Vec<(SubstreamId, PeerId)>,
+    live: Vec<Live>,
+}
+
+thread_local! {
+    static TRACE: RefCell<Vec<String>> = RefCell::new(Vec::new());
+    static SNAP: RefCell<Snap> = RefCell::new(Snap::default());
+}
+
+fn raw_sid(sid: &SubstreamId) -> usize {
+    format!("{sid:?}").chars().filter(|c| c.is_ascii_digit()).collect::<String>().parse().unwrap_or(usize::MAX)
+}
+
+fn pidx(peer: &PeerId) -> String {
+    peer_index(peer).map_or_else(|| "?".to_string(), |i| i.to_string())
+}
+
+fn plist(peers: impl Iterator<Item = PeerId>) -> String {
+    peers.map(|p| pidx(&p)).collect::<Vec<_>>().join(",")
+}
+
+fn quorum_str(quorum: &Quorum) -> String {
+    match quorum {
+        Quorum::All => "all".into(),
+        Quorum::One => "one".into(),
+        Quorum::N(n) => format!("n{n}"),
+    }
+}
+
+fn push(token: String) {
+    TRACE.with(|t| t.borrow_mut().push(token));
+}
+
+/// Hook: a query action is about to be handled by `Kademlia::on_query_action`.
+pub(super) fn trace_action(action: &QueryAction) {
+    push(match action {
+        QueryAction::SendMessage { query, peer, .. } => format!("act:send:{}:{}", query.0, pidx(peer)),
+        QueryAction::FindNodeQuerySucceeded { query, .. } => format!("act:fnok:{}", query.0),
+        QueryAction::PutRecordToFoundNodes {
+            query,
+            peers,
+            quorum,
+            ..
+        } => format!(
+            "act:putfan:{}:{}:{}",
+            query.0,
+            quorum_str(quorum),
+            plist(peers.iter().map(|p| p.peer))
+        ),
+        QueryAction::PutRecordQuerySucceeded { query, .. } => format!("act:putok:{}", query.0),
+        QueryAction::AddProviderToFoundNodes {
+            query,
+            peers,
+            quorum,
+            ..
+        } => format!(
+            "act:provfan:{}:{}:{}",
+            query.0,
+            quorum_str(quorum),
+            plist(peers.iter().map(|p| p.peer))
+        ),
+        QueryAction::AddProviderQuerySucceeded { query, .. } => format!("act:provok:{}", query.0),
+        QueryAction::GetRecordQueryDone { query_id } => format!("act:getok:{}", query_id.0),
+        QueryAction::GetRecordPartialResult { query_id, .. } => format!("act:partial:{}", query_id.0),
+        QueryAction::GetProvidersQueryDone { query_id, .. } => format!("act:provsok:{}", query_id.0),
+        QueryAction::QuerySucceeded { query } => format!("act:ok:{}", query.0),
+        QueryAction::QueryFailed { query } => format!("act:fail:{}", query.0),
+    });
+}
+
+/// Hook: an executor future completed and its result is about to be handled.
+pub(super) fn trace_result(peer: &PeerId, query: &Option<QueryId>, result: &QueryResult) {
+    let kind = match result {
+        QueryResult::SendSuccess { .. } => "sendok",
+        QueryResult::AssumeSendSuccess => "assumeok",
+        QueryResult::SendFailure { .. } => "sendfail",
+        QueryResult::ReadSuccess { .. } => "readok",
+        QueryResult::ReadFailure { .. } => "readfail",
+    };
+    push(format!(
+        "res:{}:{}:{}",
+        pidx(peer),
+        query.map_or_else(|| "-".to_string(), |q| q.0.to_string()),
+        kind
+    ));
+}
+
+fn action_kind(action: &PeerAction) -> (char, usize) {
+    match action {
+        PeerAction::SendFindNode(q) => ('F', q.0),
+        PeerAction::SendPutValue(q, _) => ('P', q.0),
+        PeerAction::SendAddProvider(q, _) => ('A', q.0),
+    }
+}
+
+/// Hook: the event loop drained the query engine and is about to wait for the next event.
+pub(super) fn snapshot(kad: &Kademlia) {
+    let universe: Vec<PeerId> = (0..=MAX_PEER).map(peer).collect();
+    let snap = Snap {
+        dials: kad
+            .pending_dials
+            .iter()
+            .map(|(p, actions)| (*p, actions.iter().map(action_kind).collect()))
+            .collect(),
+        peers: kad
+            .peers
+            .iter()
+            .map(|(p, context)| {
+                (
+                    *p,
+                    context
+                        .pending_actions
+                        .iter()
+                        .map(|(sid, action)| {
+                            let (k, q) = action_kind(action);
+                            (*sid, k, q)
+                        })
+                        .collect(),
+                )
+            })
+            .collect(),
+        subs: kad.pending_substreams.iter().map(|(sid, p)| (*sid, *p)).collect(),
+        live: kad.engine.verif_live(&universe),
+    };
+    SNAP.with(|s| *s.borrow_mut() = snap);
+}
+
+enum RemoteCmd {
+    Reply(Vec<u8>),
+    Close,
+}
+
+struct Remote {
+    peer: u64,
+    /// Type of the request read from the stream (once it arrived).
+    request: Option<String>,
+    cmd_tx: Option<UnboundedSender<RemoteCmd>>,
+    cmd_rx: Option<UnboundedReceiver<RemoteCmd>>,
+    finished: bool,
+}
+
+struct Conn {
+    id: ConnectionId,
+    rx: Option<Receiver<ProtocolCommand>>,
+    _tx: Option<Sender<ProtocolCommand>>,
+}
+
+struct Opening {
+    csid: usize,
+    raw: SubstreamId,
+    peer: u64,
+    permit: Permit,
+    conn: ConnectionId,
+}
+
+struct Inner {
+    handle: KademliaHandle,
+    service_tx: Sender<InnerTransportEvent>,
+    mgr_rx: Receiver<InnerTransportManagerCommand>,
+    mgr_peers: Peers,
+    kinds: Vec<char>,
+    protocol: ProtocolName,
+    codec: ProtocolCodec,
+    conns: BTreeMap<u64, Conn>,
+    next_conn: usize,
+    opening: Vec<Opening>,
+    sid_map: HashMap<SubstreamId, usize>,
+    control: crate::yamux::Control,
+    inbound_rx: UnboundedReceiver<crate::yamux::Stream>,
+    by_yamux: HashMap<u32, usize>,
+    remotes: BTreeMap<usize, Remote>,
+    rx_log_tx: UnboundedSender<(usize, String)>,
+    rx_log_rx: UnboundedReceiver<(usize, String)>,
+    /// Effects collected during the current operation.
+    effects: Vec<String>,
+    rx_effects: Vec<(usize, String)>,
+    /// All terminal events so far, `(query, kind)`.
+    ledger: Vec<(usize, String)>,
+    started: Vec<(usize, String)>,
+}
+
+fn address(i: u64, kind: char) -> Vec<Multiaddr> {
+    let id = peer(i);
+    match kind {
+        'g' => vec![format!("/ip4/10.0.0.{}/tcp/30333/p2p/{id}", i + 1).parse().expect("address")],
+        // no transport of this node can dial it
+        'b' => vec![format!("/ip4/10.0.0.{}/udp/30333/quic-v1/p2p/{id}", i + 1)
+            .parse()
+            .expect("address")],
+        _ => Vec::new(),
+    }
+}
+
+async fn read_frame(stream: &mut crate::yamux::Stream) -> Option<Vec<u8>> {
+    let mut len = 0usize;
+    let mut shift = 0;
+    loop {
+        let mut b = [0u8; 1];
+        stream.read_exact(&mut b).await.ok()?;
+        len |= ((b[0] & 0x7f) as usize) << shift;
+        if b[0] & 0x80 == 0 {
+            break;
+        }
+        shift += 7;
+        if shift > 28 {
+            return None;
+        }
+    }
+    let mut buf = vec![0u8; len];
+    stream.read_exact(&mut buf).await.ok()?;
+    Some(buf)
+}
+
+async fn remote_task(
+    mut stream: crate::yamux::Stream,
+    csid: usize,
+    log: UnboundedSender<(usize, String)>,
+    mut cmd_rx: UnboundedReceiver<RemoteCmd>,
+) {
+    let kind = match read_frame(&mut stream).await {
+        None => "EOF".to_string(),
+        Some(bytes) => match KademliaMessage::from_bytes(BytesMut::from(&bytes[..]), 20) {
+            Some(KademliaMessage::FindNode { .. }) => "FIND_NODE".to_string(),
+            Some(KademliaMessage::PutValue { record }) =>
+                format!("PUT_VALUE:{}", record.key.to_vec().first().copied().unwrap_or(0)),
+            Some(KademliaMessage::GetRecord { .. }) => "GET_VALUE".to_string(),
+            Some(KademliaMessage::AddProvider { key, .. }) =>
+                format!("ADD_PROVIDER:{}", key.to_vec().first().copied().unwrap_or(0)),
+            Some(KademliaMessage::GetProviders { .. }) => "GET_PROVIDERS".to_string(),
+            None => "UNDECODABLE".to_string(),
+        },
+    };
+    let _ = log.send((csid, kind));
+    while let Some(cmd) = cmd_rx.recv().await {
+        match cmd {
+            RemoteCmd::Reply(bytes) => {
+                let mut frame = Vec::new();
+                let mut n = bytes.len();
+                loop {
+                    let b = (n & 0x7f) as u8;
+                    n >>= 7;
+                    if n == 0 {
+                        frame.push(b);
+                        break;
+                    }
+                    frame.push(b | 0x80);
+                }
+                frame.extend_from_slice(&bytes);
+                let _ = stream.write_all(&frame).await;
+                let _ = stream.flush().await;
+            }
+            RemoteCmd::Close => {
+                let _ = stream.close().await;
+                return;
+            }
+        }
+    }
+}
+
+impl Inner {
+    async fn new(kinds: Vec<char>, replication: usize) -> Self {
+        let local = peer(0);
+        let (mgr_tx, mgr_rx) = channel(4096);
+        let mgr_peers = mgr::new_peers();
+        let mut mgr_handle = TransportManagerHandle::new(
+            local,
+            mgr_peers.clone(),
+            mgr_tx,
+            HashSet::from([SupportedTransport::Tcp]),
+            Default::default(),
+            PublicAddresses::new(local),
+        );
+        // the manager's address book: what this node could dial
+        for (i, kind) in kinds.iter().enumerate() {
+            let i = i as u64 + 1;
+            mgr_handle.add_known_address(&peer(i), address(i, *kind).into_iter());
+        }
+        let (config, handle) = ConfigBuilder::new().with_replication_factor(replication).build();
+        let protocol = config.protocol_names[0].clone();
+        let codec = config.codec.clone();
+        let (service, service_tx) = TransportService::new(
+            local,
+            protocol.clone(),
+            Vec::new(),
+            Default::default(),
+            mgr_handle,
+            KEEP_ALIVE_TIMEOUT,
+            SubstreamKeepAlive::Yes,
+        );
+        let kademlia = Kademlia::new(service, config);
+        tokio::spawn(async move {
+            let _ = kademlia.run().await;
+        });
+
+        // one in-memory yamux connection carries every substream of the case
+        let (a, b) = tokio::io::duplex(1 << 20);
+        let client = crate::yamux::Connection::new(
+            a.compat(),
+            crate::yamux::Config::default(),
+            crate::yamux::Mode::Client,
+        );
+        let server = crate::yamux::Connection::new(
+            b.compat(),
+            crate::yamux::Config::default(),
+            crate::yamux::Mode::Server,
+        );
+        let (control, mut client) = crate::yamux::Control::new(client);
+        tokio::spawn(async move { while let Some(Ok(_)) = client.next().await {} });
+        let (_server_control, mut server) = crate::yamux::Control::new(server);
+        let (inbound_tx, inbound_rx) = unbounded_channel();
+        tokio::spawn(async move {
+            let _keep = _server_control;
+            while let Some(Ok(stream)) = server.next().await {
+                if inbound_tx.send(stream).is_err() {
+                    break;
+                }
+            }
+        });
+        let (rx_log_tx, rx_log_rx) = unbounded_channel();
+        Self {
+            handle,
+            service_tx,
+            mgr_rx,
+            mgr_peers,
+            kinds,
+            protocol,
+            codec,
+            conns: BTreeMap::new(),
+            next_conn: 0,
+            opening: Vec::new(),
+            sid_map: HashMap::new(),
+            control,
+            inbound_rx,
+            by_yamux: HashMap::new(),
+            remotes: BTreeMap::new(),
+            rx_log_tx,
+            rx_log_rx,
+            effects: Vec::new(),
+            rx_effects: Vec::new(),
+            ledger: Vec::new(),
+            started: Vec::new(),
+        }
+    }
+
+    /// Non-blocking collection of what the remote ends and the user handle received.
+    fn pump(&mut self) {
+        while let Ok(stream) = self.inbound_rx.try_recv() {
+            let yid = stream.id().val();
+            if let Some(csid) = self.by_yamux.get(&yid).copied() {
+                if let Some(remote) = self.remotes.get_mut(&csid) {
+                    if let Some(cmd_rx) = remote.cmd_rx.take() {
+                        tokio::spawn(remote_task(stream, csid, self.rx_log_tx.clone(), cmd_rx));
+                    }
+                }
+            }
+        }
+        while let Ok((csid, kind)) = self.rx_log_rx.try_recv() {
+            if let Some(remote) = self.remotes.get_mut(&csid) {
+                remote.request = Some(kind.split(':').next().unwrap_or("").to_string());
+                if kind == "EOF" {
+                    remote.finished = true;
+                }
+            }
+            self.rx_effects.push((csid, format!("rx:{csid}:{kind}")));
+        }
+        while let Some(Some(event)) = self.handle.next().now_or_never() {
+            let terminal = match &event {
+                KademliaEvent::FindNodeSuccess { query_id, .. } => Some((query_id.0, "FindNodeSuccess")),
+                KademliaEvent::GetRecordSuccess { query_id } => Some((query_id.0, "GetRecordSuccess")),
+                KademliaEvent::GetProvidersSuccess { query_id, .. } =>
+                    Some((query_id.0, "GetProvidersSuccess")),
+                KademliaEvent::PutRecordSuccess { query_id, .. } => Some((query_id.0, "PutRecordSuccess")),
+                KademliaEvent::AddProviderSuccess { query_id, .. } =>
+                    Some((query_id.0, "AddProviderSuccess")),
+                KademliaEvent::QueryFailed { query_id } => Some((query_id.0, "QueryFailed")),
+                KademliaEvent::GetRecordPartialResult { query_id, .. } => {
+                    self.effects.push(format!("ev:partial:{}", query_id.0));
+                    None
+                }
+                _ => None,
+            };
+            if let Some((q, kind)) = terminal {
+                self.effects.push(format!("ev:{kind}:{q}"));
+                self.ledger.push((q, kind.to_string()));
+            }
+        }
+    }
+
+    async fn quiesce(&mut self) {
+        for _ in 0..ROUNDS {
+            tokio::task::yield_now().await;
+            self.pump();
+        }
+    }
+
+    /// End of an operation: collect the commands the coordinator sent to the manager and to the
+    /// connections (they are "processed" only now, like by a manager/connection task that runs
+    /// after the protocol yielded), and print the observation.
+    fn finish(&mut self) -> String {
+        let mut tail = Vec::new();
+        while let Ok(cmd) = self.mgr_rx.try_recv() {
+            if let InnerTransportManagerCommand::DialPeer { peer } = cmd {
+                mgr::set_view(&self.mgr_peers, peer, View::Dialing);
+                tail.push(format!("dial:{}", pidx(&peer)));
+            }
+        }
+        let peers: Vec<u64> = self.conns.keys().copied().collect();
+        let mut opened = Vec::new();
+        for p in peers {
+            let conn = self.conns.get_mut(&p).expect("connection");
+            let conn_id = conn.id;
+            let Some(rx) = conn.rx.as_mut() else { continue };
+            while let Ok(cmd) = rx.try_recv() {
+                if let ProtocolCommand::OpenSubstream {
+                    substream_id,
+                    permit,
+                    ..
+                } = cmd
+                {
+                    opened.push((raw_sid(&substream_id), substream_id, p, permit, conn_id));
+                }
+            }
+        }
+        // canonical substream ids: order of the `open_substream` calls
+        opened.sort_by_key(|o| o.0);
+        for (_, substream_id, p, permit, conn_id) in opened {
+            let csid = self.sid_map.len();
+            self.sid_map.insert(substream_id, csid);
+            self.opening.push(Opening {
+                csid,
+                raw: substream_id,
+                peer: p,
+                permit,
+                conn: conn_id,
+            });
+            tail.push(format!("open:{p}:{csid}"));
+        }
+        let mut tokens: Vec<String> = TRACE.with(|t| t.borrow_mut().drain(..).collect());
+        tokens.extend(tail);
+        self.rx_effects.sort();
+        tokens.extend(self.rx_effects.drain(..).map(|(_, t)| t));
+        tokens.append(&mut self.effects);
+        let state = SNAP.with(|s| self.format_state(&s.borrow()));
+        format!("{} # {}", tokens.join(" "), state)
+    }
+
+    fn csid(&self, sid: &SubstreamId) -> String {
+        self.sid_map.get(sid).map_or_else(|| "?".to_string(), |c| c.to_string())
+    }
+
+    fn format_state(&self, snap: &Snap) -> String {
+        let acts = |actions: &[(char, usize)]| {
+            actions.iter().map(|(k, q)| format!("{k}{q}")).collect::<Vec<_>>().join(",")
+        };
+        let mut dials: Vec<(u64, String)> =
+            snap.dials.iter().map(|(p, a)| (peer_index(p).unwrap_or(99), acts(a))).collect();
+        dials.sort();
+        let mut peers: Vec<(u64, String)> = snap
+            .peers
+            .iter()
+            .map(|(p, actions)| {
+                let mut items: Vec<(usize, String)> = actions
+                    .iter()
+                    .map(|(sid, k, q)| {
+                        let c = self.sid_map.get(sid).copied().unwrap_or(9999);
+                        (c, format!("{c}={k}{q}"))
+                    })
+                    .collect();
+                items.sort();
+                (
+                    peer_index(p).unwrap_or(99),
+                    items.into_iter().map(|(_, s)| s).collect::<Vec<_>>().join(","),
+                )
+            })
+            .collect();
+        peers.sort();
+        let mut subs: Vec<(usize, u64)> = snap
+            .subs
+            .iter()
+            .map(|(sid, p)| (self.sid_map.get(sid).copied().unwrap_or(9999), peer_index(p).unwrap_or(99)))
+            .collect();
+        subs.sort();
+        let live: Vec<String> = snap
+            .live
+            .iter()
+            .map(|l| {
+                let mut pending: Vec<u64> = l.pending.iter().map(|p| peer_index(p).unwrap_or(99)).collect();
+                pending.sort();
+                let pending = pending.iter().map(|p| p.to_string()).collect::<Vec<_>>().join(",");
+                match l.quorum {
+                    Some((n, m)) => format!("{}:{}:{}:{}/{}", l.id, l.kind, pending, n, m),
+                    None => format!("{}:{}:{}", l.id, l.kind, pending),
+                }
+            })
+            .collect();
+        format!(
+            "D[{}] P[{}] S[{}] Q[{}]",
+            dials.iter().map(|(p, a)| format!("{p}:{a}")).collect::<Vec<_>>().join(" "),
+            peers.iter().map(|(p, a)| format!("{p}:{a}")).collect::<Vec<_>>().join(" "),
+            subs.iter().map(|(s, p)| format!("{s}:{p}")).collect::<Vec<_>>().join(" "),
+            live.join(" ")
+        )
+    }
+
+    fn quorum(arg: Option<&&str>) -> Option<Quorum> {
+        match arg.copied() {
+            None | Some("one") => Some(Quorum::One),
+            Some("all") => Some(Quorum::All),
+            Some(n) => n
+                .strip_prefix('n')
+                .and_then(|n| n.parse::<usize>().ok())
+                .and_then(NonZeroUsize::new)
+                .map(Quorum::N),
+        }
+    }
+
+    fn peers_arg(arg: &str) -> Option<Vec<u64>> {
+        if arg == "-" {
+            return Some(Vec::new());
+        }
+        arg.split(',').map(|s| s.parse::<u64>().ok().filter(|p| *p <= MAX_PEER)).collect()
+    }
+
+    fn kad_peer(&self, i: u64) -> KademliaPeer {
+        let kind = self.kinds.get(i as usize - 1).copied().unwrap_or('n');
+        KademliaPeer::new(peer(i), address(i, kind), ConnectionType::NotConnected)
+    }
+
+    async fn established(&mut self, p: u64, mode: &str) -> bool {
+        if self.conns.contains_key(&p) || p == 0 || p > MAX_PEER {
+            return false;
+        }
+        let capacity = mode.strip_prefix("cap").and_then(|c| c.parse::<usize>().ok()).unwrap_or(64).max(1);
+        let (tx, rx) = channel(capacity);
+        let id = ConnectionId::from(self.next_conn);
+        self.next_conn += 1;
+        let handle = ConnectionHandle::new(id, tx.clone());
+        let dead = mode == "dead";
+        self.conns.insert(
+            p,
+            Conn {
+                id,
+                rx: if dead { None } else { Some(rx) },
+                _tx: if dead { None } else { Some(tx) },
+            },
+        );
+        mgr::set_view(&self.mgr_peers, peer(p), View::Connected);
+        let address: Multiaddr =
+            format!("/ip4/10.0.0.{}/tcp/30333/p2p/{}", p + 1, peer(p)).parse().expect("address");
+        let _ = self
+            .service_tx
+            .send(InnerTransportEvent::ConnectionEstablished {
+                peer: peer(p),
+                connection: id,
+                endpoint: Endpoint::dialer(address, id),
+                sender: handle,
+            })
+            .await;
+        true
+    }
+
+    async fn closed(&mut self, p: u64) -> bool {
+        let Some(conn) = self.conns.remove(&p) else {
+            return false;
+        };
+        mgr::set_view(&self.mgr_peers, peer(p), View::Disconnected);
+        self.opening.retain(|o| o.peer != p);
+        let _ = self
+            .service_tx
+            .send(InnerTransportEvent::ConnectionClosed {
+                peer: peer(p),
+                connection: conn.id,
+            })
+            .await;
+        self.quiesce().await;
+        // every substream of the connection dies with it (after the coordinator handled the event,
+        // so that the order of the two is the same in every run)
+        for remote in self.remotes.values_mut().filter(|r| r.peer == p) {
+            remote.cmd_tx = None;
+            remote.cmd_rx = None;
+            remote.finished = true;
+        }
+        true
+    }
+
+    async fn dialfail(&mut self, p: u64) {
+        if !self.conns.contains_key(&p) {
+            mgr::set_view(&self.mgr_peers, peer(p), View::Disconnected);
+        }
+        let _ = self
+            .service_tx
+            .send(InnerTransportEvent::DialFailure {
+                peer: peer(p),
+                addresses: Vec::new(),
+            })
+            .await;
+    }
+
+    /// Answer the `k`-th oldest unanswered substream open.
+    async fn subopen(&mut self, k: usize, dead: bool) -> Option<usize> {
+        if self.opening.is_empty() {
+            return None;
+        }
+        let opening = self.opening.remove(k % self.opening.len());
+        let mut open = Box::pin(self.control.open_stream());
+        let mut stream = None;
+        for _ in 0..ROUNDS {
+            if let Some(result) = (&mut open).now_or_never() {
+                stream = result.ok();
+                break;
+            }
+            tokio::task::yield_now().await;
+        }
+        drop(open);
+        let mut stream = stream?;
+        if dead {
+            let _ = stream.close().now_or_never();
+        } else {
+            let (cmd_tx, cmd_rx) = unbounded_channel();
+            self.by_yamux.insert(stream.id().val(), opening.csid);
+            self.remotes.insert(
+                opening.csid,
+                Remote {
+                    peer: opening.peer,
+                    request: None,
+                    cmd_tx: Some(cmd_tx),
+                    cmd_rx: Some(cmd_rx),
+                    finished: false,
+                },
+            );
+        }
+        let substream = Substream::new_tcp(
+            peer(opening.peer),
+            opening.raw,
+            crate::transport::tcp::Substream::new(
+                stream.compat(),
+                BandwidthSink::new(),
+                Some(opening.permit.clone()),
+            ),
+            self.codec.clone(),
+        );
+        let _ = self
+            .service_tx
+            .send(InnerTransportEvent::SubstreamOpened {
+                peer: peer(opening.peer),
+                protocol: self.protocol.clone(),
+                fallback: None,
+                direction: Direction::Outbound(opening.raw),
+                connection_id: opening.conn,
+                substream,
+                opening_permit: opening.permit,
+            })
+            .await;
+        Some(opening.csid)
+    }
+
+    async fn subfail(&mut self, k: usize) -> Option<usize> {
+        if self.opening.is_empty() {
+            return None;
+        }
+        let opening = self.opening.remove(k % self.opening.len());
+        let _ = self
+            .service_tx
+            .send(InnerTransportEvent::SubstreamOpenFailure {
+                substream: opening.raw,
+                error: SubstreamError::ConnectionClosed,
+            })
+            .await;
+        Some(opening.csid)
+    }
+
+    /// Remote ends that received a request and have not answered/closed yet, oldest first.
+    fn waiting(&self) -> Vec<usize> {
+        self.remotes
+            .iter()
+            .filter(|(_, r)| !r.finished && r.request.is_some() && r.cmd_tx.is_some())
+            .map(|(c, _)| *c)
+            .collect()
+    }
+
+    fn reply(&mut self, k: usize, nodes: &[u64], with_value: bool, garbage: &str) -> Option<usize> {
+        let waiting = self.waiting();
+        if waiting.is_empty() {
+            return None;
+        }
+        let csid = waiting[k % waiting.len()];
+        let peers: Vec<KademliaPeer> = nodes.iter().filter(|i| **i >= 1).map(|i| self.kad_peer(*i)).collect();
+        let remote = self.remotes.get_mut(&csid)?;
+        let key = RecordKey::from(vec![1u8]);
+        let bytes: Vec<u8> = if garbage == "garbage" {
+            vec![0xff, 0xff, 0xff, 0xff]
+        } else if garbage == "addprov" {
+            KademliaMessage::add_provider(
+                key.clone(),
+                ContentProvider {
+                    peer: peer(remote.peer),
+                    addresses: Vec::new(),
+                },
+            )
+            .to_vec()
+        } else {
+            match remote.request.as_deref() {
+                Some("FIND_NODE") => KademliaMessage::find_node_response(&key, peers),
+                Some("GET_VALUE") => KademliaMessage::get_value_response(
+                    key.clone(),
+                    peers,
+                    with_value.then(|| Record::new(key.clone(), vec![7u8])),
+                ),
+                Some("GET_PROVIDERS") => KademliaMessage::get_providers_response(
+                    if with_value {
+                        vec![ContentProvider {
+                            peer: peer(remote.peer),
+                            addresses: Vec::new(),
+                        }]
+                    } else {
+                        Vec::new()
+                    },
+                    &peers,
+                ),
+                Some("PUT_VALUE") => KademliaMessage::put_value_response(key.clone(), vec![7u8]).to_vec(),
+                // `ADD_PROVIDER` has no response; answer with something decodable anyway
+                _ => KademliaMessage::find_node_response(&key, peers),
+            }
+        };
+        remote.finished = true;
+        if let Some(tx) = remote.cmd_tx.as_ref() {
+            let _ = tx.send(RemoteCmd::Reply(bytes));
+        }
+        Some(csid)
+    }
+
+    fn close(&mut self, k: usize) -> Option<usize> {
+        let waiting = self.waiting();
+        if waiting.is_empty() {
+            return None;
+        }
+        let csid = waiting[k % waiting.len()];
+        let remote = self.remotes.get_mut(&csid)?;
+        remote.finished = true;
+        if let Some(tx) = remote.cmd_tx.take() {
+            let _ = tx.send(RemoteCmd::Close);
+        }
+        Some(csid)
+    }
+
+    fn start(&mut self, kind: &str, query: QueryId) {
+        self.started.push((query.0, kind.to_string()));
+    }
+
+    /// One primitive operation; `None` = unparseable.
+    async fn primitive(&mut self, t: &[&str]) -> Option<String> {
+        let num = |s: &str| s.trim_start_matches('#').parse::<usize>().ok();
+        let key = |s: &str| s.parse::<u8>().ok().map(|k| RecordKey::from(vec![k]));
+        let head = match t {
+            ["add_known_peer", p] => {
+                let p = p.parse::<u64>().ok().filter(|p| (1..=MAX_PEER).contains(p))?;
+                let kind = self.kinds.get(p as usize - 1).copied().unwrap_or('n');
+                let _ = self.handle.try_add_known_peer(peer(p), address(p, kind));
+                "ok".to_string()
+            }
+            ["find_node", target] => {
+                let target = target.parse::<u64>().ok()?;
+                let q = self.handle.try_find_node(peer(target)).ok()?;
+                self.start("find_node", q);
+                format!("q={}", q.0)
+            }
+            ["put_record", k, rest @ ..] => {
+                let q = self
+                    .handle
+                    .try_put_record(Record::new(key(k)?, vec![7u8]), Self::quorum(rest.first())?)
+                    .ok()?;
+                self.start("put_record", q);
+                format!("q={}", q.0)
+            }
+            ["put_record_to", k, peers, rest @ ..] => {
+                let peers = Self::peers_arg(peers)?.into_iter().map(peer).collect();
+                let q = self
+                    .handle
+                    .try_put_record_to_peers(
+                        Record::new(key(k)?, vec![7u8]),
+                        peers,
+                        false,
+                        Self::quorum(rest.first())?,
+                    )
+                    .ok()?;
+                self.start("put_record_to", q);
+                format!("q={}", q.0)
+            }
+            ["get_record", k, rest @ ..] => {
+                let q = self.handle.try_get_record(key(k)?, Self::quorum(rest.first())?).ok()?;
+                self.start("get_record", q);
+                format!("q={}", q.0)
+            }
+            ["start_providing", k, rest @ ..] => {
+                let q = self
+                    .handle
+                    .start_providing(key(k)?, Self::quorum(rest.first())?)
+                    .now_or_never()?;
+                self.start("start_providing", q);
+                format!("q={}", q.0)
+            }
+            ["get_providers", k] => {
+                let q = self.handle.get_providers(key(k)?).now_or_never()?;
+                self.start("get_providers", q);
+                format!("q={}", q.0)
+            }
+            ["established", p, rest @ ..] => {
+                let p = p.parse::<u64>().ok()?;
+                if self.established(p, rest.first().copied().unwrap_or("")).await {
+                    "ok".into()
+                } else {
+                    "noop".into()
+                }
+            }
+            ["closed", p] =>
+                if self.closed(p.parse::<u64>().ok()?).await {
+                    "ok".into()
+                } else {
+                    "noop".into()
+                },
+            ["dialfail", p] => {
+                let p = p.parse::<u64>().ok().filter(|p| (1..=MAX_PEER).contains(p))?;
+                self.dialfail(p).await;
+                "ok".into()
+            }
+            ["mgr", p, view] => {
+                let p = p.parse::<u64>().ok().filter(|p| (1..=MAX_PEER).contains(p))?;
+                let view = match *view {
+                    "d" => View::Disconnected,
+                    "i" => View::Dialing,
+                    "c" => View::Connected,
+                    _ => return None,
+                };
+                mgr::set_view(&self.mgr_peers, peer(p), view);
+                "ok".into()
+            }
+            ["subopen", k, rest @ ..] => match self.subopen(num(k)?, rest.first() == Some(&"dead")).await {
+                Some(csid) => format!("sid={csid}"),
+                None => "noop".into(),
+            },
+            ["subfail", k] => match self.subfail(num(k)?).await {
+                Some(csid) => format!("sid={csid}"),
+                None => "noop".into(),
+            },
+            ["reply", k, rest @ ..] => {
+                let mut nodes = Vec::new();
+                let mut value = false;
+                let mut garbage = "";
+                for arg in rest {
+                    if let Some(list) = arg.strip_prefix("nodes=") {
+                        nodes = Self::peers_arg(list)?;
+                    } else if *arg == "value" {
+                        value = true;
+                    } else if *arg == "garbage" || *arg == "addprov" {
+                        garbage = *arg;
+                    } else {
+                        return None;
+                    }
+                }
+                match self.reply(num(k)?, &nodes, value, garbage) {
+                    Some(csid) => format!("sid={csid}"),
+                    None => "noop".into(),
+                }
+            }
+            ["close", k] => match self.close(num(k)?) {
+                Some(csid) => format!("sid={csid}"),
+                None => "noop".into(),
+            },
+            ["advance", ms] => {
+                let ms = ms.parse::<u64>().ok().filter(|ms| *ms <= 120_000)?;
+                tokio::time::advance(Duration::from_millis(ms)).await;
+                "ok".into()
+            }
+            ["events"] => "ok".into(),
+            _ => return None,
+        };
+        self.quiesce().await;
+        Some(format!("{head} {}", self.finish()))
+    }
+
+    /// Discharge every obligation of the environment: conclude the dials, answer the substream
+    /// opens (with failures), let every executor future run into its timeout; repeat until
+    /// nothing is outstanding.
+    async fn settle(&mut self) -> String {
+        let mut parts = Vec::new();
+        for _ in 0..12 {
+            let mut progressed = false;
+            let waited: Vec<PeerId> = SNAP.with(|s| s.borrow().dials.iter().map(|(p, _)| *p).collect());
+            let dialing: Vec<u64> = (1..=MAX_PEER)
+                .filter(|p| {
+                    waited.contains(&peer(*p))
+                        || (!self.conns.contains_key(p) && mgr::is_dialing(&self.mgr_peers, &peer(*p)))
+                })
+                .collect();
+            for p in dialing {
+                if self.conns.contains_key(&p) {
+                    let line = format!("closed {p}");
+                    let t: Vec<&str> = line.split_whitespace().collect();
+                    if let Some(out) = self.primitive(&t).await {
+                        parts.push(format!("{line} -> {out}"));
+                    }
+                }
+                let line = format!("dialfail {p}");
+                let t: Vec<&str> = line.split_whitespace().collect();
+                if let Some(out) = self.primitive(&t).await {
+                    parts.push(format!("{line} -> {out}"));
+                }
+                progressed = true;
+            }
+            while !self.opening.is_empty() {
+                if let Some(out) = self.primitive(&["subfail", "#0"]).await {
+                    parts.push(format!("subfail #0 -> {out}"));
+                }
+                progressed = true;
+            }
+            if let Some(out) = self.primitive(&["advance", "16000"]).await {
+                let quiet = out.starts_with("ok  #");
+                if !quiet || progressed {
+                    parts.push(format!("advance 16000 -> {out}"));
+                }
+                progressed |= !quiet;
+            }
+            if !progressed {
+                break;
+            }
+        }
+        let mut ledger: Vec<String> = self.ledger.iter().map(|(q, k)| format!("{q}:{k}")).collect();
+        ledger.sort();
+        let started: Vec<String> = self.started.iter().map(|(q, k)| format!("{q}:{k}")).collect();
+        format!(
+            "settled started[{}] terminal[{}] | {}",
+            started.join(" "),
+            ledger.join(" "),
+            parts.join(" | ")
+        )
+    }
+}
+
+/// The real `Kademlia` in a box.
+pub struct KadBox {
+    runtime: tokio::runtime::Runtime,
+    inner: Option<Inner>,
+}
+
+impl KadBox {
+    /// Create the box; the component is built by the `net` operation.
+    pub fn new() -> Self {
+        TRACE.with(|t| t.borrow_mut().clear());
+        SNAP.with(|s| *s.borrow_mut() = Snap::default());
+        Self {
+            runtime: tokio::runtime::Builder::new_current_thread()
+                .enable_time()
+                .start_paused(true)
+                .build()
+                .expect("runtime"),
+            inner: None,
+        }
+    }
+}
+
+impl VerifBox for KadBox {
+    fn step(&mut self, line: &str) -> String {
+        let t: Vec<&str> = line.split_whitespace().collect();
+        if let ["net", kinds @ ..] = t.as_slice() {
+            let replication = kinds
+                .iter()
+                .find_map(|k| k.strip_prefix("repl=").and_then(|r| r.parse::<usize>().ok()))
+                .unwrap_or(20);
+            let kinds: Vec<char> =
+                kinds.iter().filter(|k| !k.contains('=')).filter_map(|k| k.chars().next()).collect();
+            if self.inner.is_some()
+                || kinds.is_empty()
+                || kinds.len() as u64 > MAX_PEER
+                || kinds.iter().any(|k| !"gbn".contains(*k))
+            {
+                return "bad-op".into();
+            }
+            let inner = self.runtime.block_on(async {
+                let mut inner = Inner::new(kinds, replication).await;
+                inner.quiesce().await;
+                inner
+            });
+            self.inner = Some(inner);
+            return "ok".into();
+        }
+        let Some(inner) = self.inner.as_mut() else {
+            return "bad-op".into();
+        };
+        self.runtime.block_on(async {
+            if t.as_slice() == ["settle"] {
+                return inner.settle().await;
+            }
+            match inner.primitive(&t).await {
+                Some(out) => out,
+                None => "bad-op".into(),
+            }
+        })
+    }
+}
+
